@@ -158,7 +158,7 @@ def build_harness(log):
     return []
 
 
-def gen_trace(pid, seed, tier, path, full=False):
+def gen_trace(pid, seed, tier, path, full=False, ladder=True):
     """Runs the generator against the real crate. Returns True when it ran to completion. An operation of the
     crate that does not return (the harness's watchdog ends the process and leaves the case in the hang file)
     is appended to the trace as `<op> => fault hang @gone`; a generator that does not finish within the overall
@@ -169,6 +169,9 @@ def gen_trace(pid, seed, tier, path, full=False):
     env = dict(os.environ, HOOT_HANG_FILE=hang)
     if full:
         env["HOOT_FULL"] = "1"
+    if not ladder:
+        # the size ladders do not depend on the seed: one copy per run is enough
+        env["HOOT_NO_LADDER"] = "1"
     limit = 3600 if tier == "thorough" else 900
     ok = True
     with open(path, "wb") as f:
@@ -379,7 +382,7 @@ def main():
         # get the seed as a suffix so that they stay unique)
         for extra in THOROUGH_EXTRA_SEEDS:
             t2 = os.path.join(WORK, f"{pid}.{tier}.s{seed + extra}.trace")
-            ok2 = gen_trace(pid, seed + extra, tier, t2)
+            ok2 = gen_trace(pid, seed + extra, tier, t2, ladder=False)
             gen_ok = gen_ok and ok2
             with open(trace, "ab") as out, open(t2, "rb") as src:
                 for line in src:
@@ -466,7 +469,7 @@ def main():
         if have_model:
             for s2 in range(seed + 1, seed + (7 if tier == "thorough" else 4)):
                 t2 = os.path.join(WORK, f"{pid}.search{s2}.trace")
-                gen_trace(pid, s2, "thorough" if s2 == seed + 1 else tier, t2, full=True)
+                gen_trace(pid, s2, "thorough" if s2 == seed + 1 else tier, t2, full=True, ladder=False)
                 o2p = os.path.join(WORK, f"{pid}.search{s2}.oracle")
                 oracle_run(pid, t2, o2p)
                 o2 = parse_oracle(o2p)
